@@ -108,7 +108,8 @@ def main():
             mods = v.get("build", ["."])
             okb = True
             for m in mods:
-                rc, out = sh("go build ./pkg/... ./plugins/... 2>&1 | grep -v '^#' | head -5; exit ${PIPESTATUS[0]}", cwd=os.path.join(WT, m))
+                pat = "./pkg/... ./plugins/..." if m == "." else "./..."
+                rc, out = sh(f"go build {pat} 2>&1 | grep -v '^#' | head -5; exit ${{PIPESTATUS[0]}}", cwd=os.path.join(WT, m))
                 if rc != 0:
                     print(f"[{v['id']}] DOES NOT COMPILE: {out}")
                     okb = False
